@@ -11,6 +11,7 @@ thread_local! {
     static SDLOG: RefCell<Vec<u32>> = const { RefCell::new(Vec::new()) };
     static SCLONES: RefCell<u32> = const { RefCell::new(0) };
     static SCLONE_ID: RefCell<u32> = const { RefCell::new(0) };
+    static SSHALLOW: RefCell<bool> = const { RefCell::new(false) };
 }
 
 #[repr(align(32))]
@@ -30,6 +31,9 @@ impl Clone for SNode {
     fn clone(&self) -> SNode {
         SCLONES.with(|c| *c.borrow_mut() += 1);
         let id = SCLONE_ID.with(|c| *c.borrow());
+        if SSHALLOW.with(|c| *c.borrow()) {
+            return SNode { id, strong: RefCell::new(Vec::new()), weak: RefCell::new(Vec::new()) };
+        }
         SNode {
             id,
             strong: RefCell::new(self.strong.borrow().iter().map(|(t, h)| (*t, Rc::clone(h))).collect()),
@@ -270,7 +274,8 @@ impl SWorld {
                 let h = self.roots[ai].last_mut()?;
                 if Rc::get_mut(h).is_some() { "some" } else { "none" }.into()
             }
-            "MakeMut" => {
+            "MakeMut" | "MakeMutS" => {
+                SSHALLOW.with(|c| *c.borrow_mut() = op == "MakeMutS");
                 let mut h = self.roots[ai].pop()?;
                 let (sc, wc) = (Rc::strong_count(&h), Rc::weak_count(&h));
                 let newid = self.vptr.len() as u32;
